@@ -7,6 +7,13 @@ from cisco_acl import Ace, AceGroup, Acl, Remark
 from .aclobs import leaves
 
 
+def member_objs(acl: Acl, lines):
+    """Member addresses built like the config-level functions do: with the ACL's version."""
+    from cisco_acl import Address
+    return [Address(ln, platform=acl.platform, version=str(acl.version), max_ncwb=acl.max_ncwb)
+            for ln in lines]
+
+
 def group_members(acl: Acl, name: str):
     """Member lines of address group `name` as attached to the ACL's entries (one definition per
     group name, as in a device configuration)."""
@@ -30,7 +37,7 @@ def new_item(acl: Acl, line: str):
         if addr.type == "addrgroup":
             lines = group_members(acl, addr.addrgroup)
             if lines:
-                addr.items = lines
+                addr.items = member_objs(acl, lines)
     return ace
 
 
@@ -200,7 +207,7 @@ def perform(acl: Acl, op: dict):
             if isinstance(leaf, Ace):
                 for addr in (leaf.srcaddr, leaf.dstaddr):
                     if addr.type == "addrgroup" and addr.addrgroup == op["name"]:
-                        addr.items = list(op["lines"])
+                        addr.items = member_objs(acl, op["lines"])
         return None
     raise KeyError(k)
 
